@@ -245,6 +245,22 @@ impl TypedProgram {
         sorted_const_defs.sort_by_key(|(_name, const_def)| const_def.meta);
         for (const_name, const_def) in sorted_const_defs {
             let ConstExpr(expr, _) = &const_def.value;
+            // The value of each integer const is recorded, so that the const definitions that follow
+            // can be resolved if they refer to it
+            match (&const_def.ty, expr) {
+                (Type::Signed(_), ConstExprEnum::NumSigned(n, _)) => {
+                    consts_signed.insert(const_name.clone(), *n);
+                }
+                (Type::Signed(_), _) => {
+                    let n = resolve_const_expr_signed(&const_def.value, &consts_signed);
+                    consts_signed.insert(const_name.clone(), n);
+                }
+                (Type::Unsigned(_), _) => {
+                    let n = resolve_const_expr_unsigned(&const_def.value, &consts_unsigned);
+                    consts_unsigned.insert(const_name.clone(), n);
+                }
+                _ => {}
+            }
             match expr {
                 ConstExprEnum::True => env.let_in_current_scope(const_name.clone(), vec![1]),
                 ConstExprEnum::False => env.let_in_current_scope(const_name.clone(), vec![0]),
